@@ -1,6 +1,6 @@
 (* Correspondence runner for the wire codec (C11, C12, byte half of C05). *)
 From Coq Require Export List NArith ZArith Bool String Uint63.
-From Mac Require Export Model.Caveat Model.Msgpack Model.Codec Model.TypedDec Generated.Facts Corr.Transport.
+From Mac Require Export Model.Caveat Model.Msgpack Model.Codec Model.TypedDec Model.TypedDec2 Generated.Facts Corr.Transport.
 Export ListNotations.
 
 Inductive mcase :=
@@ -14,7 +14,10 @@ Inductive mcase :=
                                                                               than the frame level can see (typed bodies), never less *)
 | KJTypeRead (s : string) (t : N)                           (* caveat type obtained from the JSON "type" field s *)
 | KJTypePrint (t : N) (out : string)                        (* the "type" field written for a caveat of type t *)
-| KDecBody (ty : N) (body : bytes) (ok : bool) (reenc : bytes).   (* DecodeCaveats on 92 <ty> <body>: the one-caveat set re-encoded (typed lenient decoding, Model.TypedDec) *)
+| KDecBody (ty : N) (body : bytes) (ok : bool) (reenc : bytes)    (* DecodeCaveats on 92 <ty> <body>: the one-caveat set re-encoded (typed lenient decoding, Model.TypedDec) *)
+| KDecBody2 (pz : bool) (ty : N) (body : bytes) (ok : bool) (nilrs : bool) (reenc : bytes)   (* the same for every type (Model.TypedDec2); pz: which
+                                                                      decoder this process built for *CaveatSet; nilrs: the caveat holds a nil resource set *)
+| KDecSet (pz : bool) (input : bytes) (ok : bool) (reenc : bytes). (* DecodeCaveats on a whole set, re-encoded *)
 
 Definition b2z (b : bool) : Z := if b then 1%Z else 0%Z.
 Definition zs (l : list N) : list Z := Z.of_nat (List.length l) :: map Z.of_N l.
@@ -32,12 +35,21 @@ Definition model_out (k : mcase) : list Z :=
                    | Some rest => [1%Z; Z.of_nat (List.length i - List.length rest)]
                    | None => [0%Z] end
   | KJson c _ _ => match json_rt c with Some c' => zo (enc_one c') | None => [0%Z] end
-  | KFramesHostile i ok _ => match dec_frames_len i with
-                             | Some fs => if ok then 1%Z :: Z.of_nat (List.length fs) :: map (fun f => Z.of_N (fst f)) fs else [0%Z]
-                             | None => [0%Z] end
+  | KFramesHostile i ok _ =>
+    (* the typed lenient decoder of whole sets (Model.TypedDec2; either variant of the *CaveatSet decoder); the frame-level
+       dec_frames_len is kept as a second opinion wherever no ext header precedes a map (TypedDec2Frames) *)
+    let ans := match dec_set_typed_gen true true i with Some cs => Some cs | None => dec_set_typed_gen true false i end in
+    match ans with
+    | Some cs => if ok then 1%Z :: Z.of_nat (List.length cs) :: map (fun c => Z.of_N (cav_type c)) cs else [0%Z]
+    | None => match dec_frames_len i with
+              | Some fs => if ok then 1%Z :: Z.of_nat (List.length fs) :: map (fun f => Z.of_N (fst f)) fs else [0%Z]
+              | None => [0%Z] end
+    end
   | KJTypeRead s _ => [Z.of_N (type_from_json_al all_reg json_aliases f_cav_unregistered s)]
   | KJTypePrint t _ => zs (str_bytes (type_to_json all_reg f_cav_min_user_defined t))
   | KDecBody ty body _ _ => match dec_body ty body with Some c => zo (enc_one c) | None => [0%Z] end
+  | KDecBody2 pz ty body _ _ _ => match dec_body2_gen true pz ty body with Some c => b2z (dec_nilrs ty body) :: zo (enc_one c) | None => [0%Z] end
+  | KDecSet pz i _ _ => match dec_set_typed_gen true pz i with Some cs => zo (enc_set cs) | None => [0%Z] end
   end.
 
 Definition obs_out (k : mcase) : list Z :=
@@ -48,6 +60,7 @@ Definition obs_out (k : mcase) : list Z :=
   | KSkip _ ok n => if ok then [1%Z; Z.of_N n] else [0%Z]
   | KJTypeRead _ t => [Z.of_N t]
   | KJTypePrint _ o => zs (str_bytes o)
-  | KDecBody _ _ ok o => if ok then 1%Z :: zs o else [0%Z]
+  | KDecBody _ _ ok o | KDecSet _ _ ok o => if ok then 1%Z :: zs o else [0%Z]
+  | KDecBody2 _ _ _ ok nilrs o => if ok then b2z nilrs :: 1%Z :: zs o else [0%Z]
   end.
 Definition run (l : list mcase) := mismatches model_out obs_out l.
